@@ -54,7 +54,10 @@ def _returns(ctx, runs, what, where):
             return []
     out = [r for r in runs if not r.raised]
     if not out:
-        ctx.error(f"{what}: no regime returns", where)
+        if runs and all(r.sure for r in runs):
+            ctx.fail(f"{what}: the function returns (no `raise`) on a valid input", where, {"regimes that end in a raise statement": len(runs)})
+        else:
+            ctx.error(f"{what}: no regime returns", where)
     return out
 
 
@@ -142,13 +145,25 @@ def r1_inverse_pair(ctx):
             return hook(name, args, kwargs, node, ip)
         env = {"gid": N.as_arr((loc,)), "csys": F.const(7)}
         paths = _returns(ctx, N.explore(ctx, N2P, inv, env, hook=hook2), f"getcoordinates ({label})", inv)
+        for r in paths:
+            asked = [c for c in r.calls if c[0] == "mkusetcoordinfo"]
+            from .sem import place
+            ok = len(asked) >= 1 and all(G.same(place(c[1], c[2], ["cord", "uset", "coordref"]).get("cord"), F.const(7)) and
+                                         G.same(place(c[1], c[2], ["cord", "uset", "coordref"]).get("uset"), F.sym("uset")) for c in asked)
+            acc.check(ok, "getcoordinates: the coordinate system that is resolved (mkusetcoordinfo) is the one asked for, in the table that was given", inv,
+                      None if ok else [_show(c[1], 120) for c in asked])
+        if ctype == 2:
+            _r1_lookup(ctx, acc, inv, loc, a, hook2)
         sx, cx = G.atom_id(F.sin(x2)), G.atom_id(F.cos(x2))
         for r in paths:
             res = N.to_nested(r.ret)
             branch = _branch_tag(r, sx, cx) if ctype == 3 else ""
             tag = f"getcoordinates o _get_loc_a_basic ({label}{branch})"
-            if not (isinstance(res, tuple) and len(res) == 3 and G.is_vector(res)) or G.any_unknown(res):
+            if G.any_unknown(res) or res is None:
                 ctx.error(f"{tag}: result", inv, _show(res))
+                continue
+            if not (isinstance(res, tuple) and len(res) == 3 and G.is_vector(res)):
+                ctx.fail(f"{tag}: one location asked for gives one [c1, c2, c3] triple", inv, _show(res))
                 continue
             if ctype == 1:
                 ok = G.same(res, a)
@@ -164,6 +179,41 @@ def r1_inverse_pair(ctx):
             if ctype == 3 and all(G.same(res[k], a[k]) for k in range(3)):
                 _divisor_guard(ctx, acc, r, tag, x1, x2, a, inv)
     acc.flush()
+
+
+def _r1_lookup(ctx, acc, inv, loc, a, hook):
+    """getcoordinates asked by grid id (the location is row (id, 1), columns x, y, z of the table) and asked for the basic system"""
+    spec = [("S", 3, False), ("G", 8, 1, False), ("G", 21, 1, False)]
+    scene = _Scene(spec)
+    g = scene.grids[1]
+    rows = [list(r) for r in scene.rows]
+    rows[g["row"]][1:] = list(loc)                       # the grid sits where the forward map put the entered coordinates
+    table = N.Table(N.as_arr(tuple(tuple(r) for r in rows)), scene.ids, scene.dofs)
+    try:
+        runs = N.explore(ctx, N2P, inv, {"uset": table, "gid": N.as_arr((F.const(21),)), "csys": F.const(7)}, hook=hook)
+    except Unsupported as e:
+        ctx.error("getcoordinates (grid id): evaluation", inv, str(e))
+        return
+    for r in _returns(ctx, runs, "getcoordinates (grid id)", inv):
+        res = N.to_nested(r.ret)
+        if G.any_unknown(res) or res is None:
+            ctx.error("getcoordinates (grid id): result", inv, _show(res))
+            continue
+        ok = G.same(res, a)
+        acc.check(ok, "getcoordinates: a grid id stands for the location stored for that grid (table row (id, 1), columns x, y, z)", inv,
+                  None if ok else _show(res))
+    try:
+        runs = N.explore(ctx, N2P, inv, {"gid": N.as_arr((loc,)), "csys": F.const(0)}, hook=hook)
+    except Unsupported as e:
+        ctx.error("getcoordinates (basic system): evaluation", inv, str(e))
+        return
+    for r in _returns(ctx, runs, "getcoordinates (basic system)", inv):
+        res = N.to_nested(r.ret)
+        if G.any_unknown(res) or res is None:
+            ctx.error("getcoordinates (basic system): result", inv, _show(res))
+            continue
+        ok = G.same(res, loc)
+        acc.check(ok, "getcoordinates: coordinate system 0 is the basic system (the location is returned as it is)", inv, None if ok else _show(res))
 
 
 def _branch_tag(run, sx, cx):
@@ -282,13 +332,13 @@ def _assign(syms, values):
 
 def r3_rbgeom(ctx):
     fn = ctx.src.func(N2P, "rbgeom")
-    ng = 3
+    ng = 2          # not 3: the number of grids must not coincide with the number of coordinates
     g = tuple(tuple(F.sym(f"g{i}{k}") for k in "xyz") for i in range(ng))
     r = tuple(F.sym(f"r{k}") for k in "xyz")
 
     dead = []          # the first scenario that cannot be evaluated is reported, the others are not tried (same cause)
 
-    def results(args, what, truth=None):
+    def results(args, what, truth=None, ng=ng):
         if dead:
             return None
         try:
@@ -310,7 +360,7 @@ def r3_rbgeom(ctx):
 
     # ---- scalar reference: the index of a grid (every index of the table, and one counted from the end)
     bad, n_ok = [], 0
-    for k in (0, 1, 2, -1):
+    for k in (0, 1, -1):
         res = results({"grids": N.as_arr(g), "refpoint": F.const(k)}, f"scalar reference {k}")
         if res is None:
             continue
@@ -353,6 +403,13 @@ def r3_rbgeom(ctx):
     if n_ok:
         ctx.check(not bad, "rbgeom: the shift is skipped only when every coordinate of the reference point is zero", fn,
                   None if not bad else {"counterexamples": bad[:4], "consequence": "a reference point with one zero coordinate would be ignored"})
+    one = tuple(F.sym(f"q{k}") for k in "xyz")
+    res = results({"grids": N.as_arr(one), "refpoint": N.as_arr(r)}, "one location given as a 3-vector", truth=generic, ng=1)
+    if res is not None:
+        want = rbgeom_spec((one,), r)
+        ok = all(G.same(x, want) for x in res)
+        ctx.check(ok, "rbgeom: one location given as a plain 3-vector (the way rbmove passes the old reference) is one grid", fn,
+                  None if ok else _show(res[0], 600))
     res = results({"grids": N.as_arr(g)}, "default reference")
     if res is not None:
         want = rbgeom_spec(g, (O_, O_, O_))
@@ -617,6 +674,14 @@ def r2_local_frames(ctx):
         bad = [info["id"] for info in scene.grids if not all(G.same(block(res, info), scene.expected_block(info, ref)) for res, _ in results)]
         ctx.check(not bad, "rbgeom_uset: the rectangular step visits every grid: blocks of six rows starting at 0, 6, 12, ... of the selected table",
                   fn, None if not bad else {"grids with a wrong block": bad})
+    # ---- the default reference point
+    if results is not None:
+        scene, results = evaluate(_ALL_RECT, "default reference point", None)
+        if results is not None:
+            zero = (O_, O_, O_)
+            bad = [info["id"] for info in scene.grids if not all(G.same(block(res, info), scene.expected_block(info, zero)) for res, _ in results)]
+            ctx.check(not bad, "rbgeom_uset: the default reference point is the origin of the basic system", fn,
+                      None if not bad else {"grids with a wrong block": bad})
     # ---- a grid id as reference point
     if results is not None:
         scene, results = evaluate(_ALL_RECT, "grid id as reference point", F.const(6))
